@@ -51,7 +51,7 @@ PROP = dict(
              "has its tagged field in an ANONYMOUS EMBEDDED STRUCT of the holder, one or two levels deep, by value (flags e1 e2: reflect.StructOf with Anonymous fields, an untagged field of its own on "
              "every level, no top-level tag mentioning validate; the corpus also has four Go-declared holders with Go's own embedding, flag g<n>): the container flattens embedded structs into the "
              "holder's properties, so start-up must fail iff the constraint is violated exactly as for a field of the holder itself (validate-iff / expr-result / bind-direct); "
-             "after these, one further case per twelve binds a POINT IN TIME (label time; oracle-only: time.Time is outside the model's types): fields of type time.Time / *time.Time / a named type over time.Time and a pointer to it, bound by prefix from a YAML timestamp (yaml hands over a time.Time, no layout involved) or from a text with a `timeLayout` argument (2006-01-02, RFC 3339, 20060102, 02/01/2006, 2006-01-02T15:04:05), through ${k}, from a literal in the tag, absent and optional, a text without a layout / not of the layout; two in three carry a validate argument (required, bare, omitempty, gt, required lt): the harness decodes with mapstructure + the same time hook and hands the bound value to validator.Struct / Var exactly as declared - the validator answers a point in time handed over as a struct with an error, so start-up fails (validate-iff), and a PANIC of the container where the direct validator gives a verdict is reported as validate-panic (never swallowed; also what C09 demands of Run); after these, one further case per twelve (label hidden-field; expression cases - plain, with defaulted operands, with keys named in two steps, with quote characters - preferred, one in six a value x constraint pair) has EVERY tagged field of its holder HIDDEN, in Go's selector sense, by a name collision among embedded structs (flag h<n>, reflect.StructOf with anonymous fields: 1 two mix-ins with a same-named tagged field - the promoted selector is ambiguous -, 2 an embedded tagged field shadowed by an untagged field of the holder with the same name, 3 shadowed from two levels up, 4 ambiguous at depth two; the corpus also has four Go-declared holders, flags g5-g8, one of them with an optional wire field next to the mix-ins) and no other field with a value / prop / prefix tag: Meta.scanFields makes a property of every settable tagged field of every embedded struct, visible or not, so every stage must run - the field, read through the embedded struct explicitly (holder.MixA.H0), must receive the expression's result and start-up must fail iff the constraint is violated (expr-result / validate-iff / bind-direct); 30% of the holders also carry an optional wire dependency (both property groups exist) and are started 4 times, every start must agree (oracle start-unstable); non-trivial = all; distinct = distinct scenario lines",
+             "after these, one further case per twelve binds a POINT IN TIME (label time; oracle-only: time.Time is outside the model's types): fields of type time.Time / *time.Time / a named type over time.Time and a pointer to it, bound by prefix from a YAML timestamp (yaml hands over a time.Time, no layout involved) or from a text with a `timeLayout` argument (2006-01-02, RFC 3339, 20060102, 02/01/2006, 2006-01-02T15:04:05), through ${k}, from a literal in the tag, absent and optional, a text without a layout / not of the layout; two in three carry a validate argument (required, bare, omitempty, gt, required lt): the harness decodes with mapstructure + the same time hook and hands the bound value to validator.Struct / Var exactly as declared - the validator answers a point in time handed over as a struct with an error, so start-up fails (validate-iff), and a PANIC of the container where the direct validator gives a verdict is reported as validate-panic (never swallowed; also what C09 demands of Run); after these, one further case per twelve (label hidden-field; expression cases - plain, with defaulted operands, with keys named in two steps, with quote characters - preferred, one in six a value x constraint pair) has EVERY tagged field of its holder HIDDEN, in Go's selector sense, by a name collision among embedded structs (flag h<n>, reflect.StructOf with anonymous fields: 1 two mix-ins with a same-named tagged field - the promoted selector is ambiguous -, 2 an embedded tagged field shadowed by an untagged field of the holder with the same name, 3 shadowed from two levels up, 4 ambiguous at depth two; the corpus also has four Go-declared holders, flags g5-g8, one of them with an optional wire field next to the mix-ins) and no other field with a value / prop / prefix tag: Meta.scanFields makes a property of every settable tagged field of every embedded struct, visible or not, so every stage must run - the field, read through the embedded struct explicitly (holder.MixA.H0), must receive the expression's result and start-up must fail iff the constraint is violated (expr-result / validate-iff / bind-direct); 30% of the holders also carry an optional wire dependency (both property groups exist) and are started 4 times, every start must agree (oracle start-unstable); after these (ninth round), one further case per twelve whose HOLDER IS ITSELF A USER POST-PROCESSOR (label pp-holder; eight Go-declared types, flags g9-g16 - reflect.StructOf cannot give a type methods -: container.ComponentPostProcessor by embedding processors.DefaultComponentPostProcessor or with methods of their own, not LazyInit, no Ordered / PriorityOrdered marker; fixed tags `#{${kb}*${kf}},validate=min=10`, `#{'${kn}'+'${kz}'},validate=required min=4`, `${k},validate=min=1 max=100`, `${k:none},validate=alpha ne=blue`, a section `prefix:\"k,validate\"` validated as a struct, `#{${k}/4},validate=lte=2.5`, `#{${ka} > ${kb} && ${kt}}`, a tagged field promoted from an embedded mix-in; the CONFIGURATION is generated on both sides of every constraint, one operand in fourteen not configured): such a component is created while InvokeBeanFactoryPostProcessors resolves the registered processors, before Refresh, and its own fields are configuration properties like anybody's - the expression is evaluated after substitution, the field receives the result, start-up fails iff the constraint is violated (expr-result / validate-iff / bind-direct; the model ignores the flag); non-trivial = all; distinct = distinct scenario lines",
         trusted_base=COMMON_TB + ["the go/ast facts translator for Facts.builtinProcessors / orderConsts",
                                   "expr-lang/expr and go-playground/validator themselves (opaque; called directly by the oracle)",
                                   "strconv2 / mapstructure as modelled in Ioc.Value (validated by the correspondence)"],
